@@ -115,8 +115,38 @@ def e5_own(ctx):
     ctx.floor("E5-own", n, 30, "format x loader-class cells")
 
 
+def r12c(ctx):
+    m = ctx.model
+    ctx.rule("R12c", "formatter singletons carry no marker state from one print to the next: every flag that write_char sets "
+                     "from its removed/inserted arguments is reset to False after the last character of a string edit, so a "
+                     "later plain print through the same formatter instance emits no stray ~~ / ++")
+    q = m.need_class("StringFormatter")
+    wc = m.method(q, "write_char")
+    flags = set()
+    for s_ in walk_no_nested(wc.node):
+        if isinstance(s_, ast.Assign) and self_attr(s_.targets[0]) and isinstance(s_.value, ast.Name) \
+                and s_.value.id in func_params(wc.node):
+            flags.add(self_attr(s_.targets[0]))
+    ctx.floor("R12c", len(flags), 1, "marker-state flags set by write_char")
+    pe = m.method(q, "print_StringEdit")
+    calls = [c for c in walk_no_nested(pe.node) if isinstance(c, ast.Call) and self_attr(c.func) == "write_char"]
+    last = max((c.lineno for c in calls), default=0)
+    for fl in sorted(flags):
+        resets = [s_ for s_ in walk_no_nested(pe.node) if isinstance(s_, ast.Assign) and self_attr(s_.targets[0]) == fl
+                  and isinstance(s_.value, ast.Constant) and s_.value.value is False and s_.lineno > last]
+        if resets:
+            ctx.proved("R12c", pe.file, "StringFormatter.print_StringEdit", resets[0], f"{fl} reset",
+                       f"self.{fl} is cleared after the last character is written")
+        else:
+            ctx.violation("R12c", pe.file, "StringFormatter.print_StringEdit", pe.node, f"{fl} reset",
+                          f"write_char sets self.{fl} while printing a string edit, but print_StringEdit does not reset it after "
+                          f"the last character: the formatter is a shared singleton (DEFAULT_INSTANCE), so the next unedited "
+                          f"string printed through it starts with a stray change marker and no longer parses back equal")
+
+
 def run(ctx):
     e9_json(ctx)
+    r12c(ctx)
     e9_csv(ctx)
     e5_own(ctx)
     ctx.assume("the round trip itself (every Unicode scalar, extreme numbers, deep nesting) is a property of output values; "
